@@ -1025,7 +1025,7 @@ def stream_out_transform(body, stream_vars, str_macros=()):
                     calls.append('out_precision(%s, %s);%s' % (target, re.match(r'^setprecision\((.*)\)$', o).group(1), nl))
                 elif o.startswith('"') or o in str_macros:
                     calls.append('out_str(%s, %s);%s' % (target, o, nl))
-                elif o.startswith("'"):
+                elif o.startswith("'") or o.startswith('static_cast<char>('):
                     calls.append('out_char(%s, %s);%s' % (target, o, nl))
                 else:
                     calls.append('OUT_NUM(%s, %s);%s' % (target, o, nl))
